@@ -7,15 +7,19 @@ from .common import Acc, result, search_result
 ID = "C19"
 LEAN_MODULES = ["MjwVerif.Props.C19"]
 GEN_FUNCS = ["math.upper_tri_index", "collision_driver._add_geom_pair", "collision_core.write_contact", "collision_core.contact_material_params", "collision_core.contact_margin_gap"]
-LEVEL_TEXT = ("Theorems, for every ngeom and all arrays: `upper_tri_index` (regenerated from math.py) is a bijection onto [0, n(n-1)/2) in triu order; the pair table built by put_model — a hand "
-              "transcription of its NumPy block (Model/PairFilter.lean), tied to the real put_model by running both on random models on every run — has at idx(g1,g2) the id of the last explicit "
-              "pair listing {g1,g2}, else -1 iff the geoms pass contype/conaffinity, lie on different weld bodies, are not parent and child (unless filterparent is off) and are not excluded, else "
-              "-2; this equals the property's rule for compiled models; filtered entries are never written by write_contact / never enter the NXN list / are skipped by the SAP gate; explicit pairs "
-              "use the pair's margin/gap/condim/friction/solref/solimp. The reported contact pairs are compared with mujoco.mj_collision.")
-TECHNIQUE = ("Lean 4 theorems over a hand-written model of put_model's pair table (Model/PairFilter.lean) tied to the real put_model by a line-protocol correspondence on every run, plus theorems over kernels regenerated from source; oracle mujoco.mj_collision")
-LEVEL_NOTE = ("C19_partial: the NumPy block is modelled by hand (correspondence-checked); degenerate explicit pairs (geom1 == geom2) and duplicated pairs deviate from MuJoCo (C19Witness; known findings). "
-              "Trusted: Lean kernel, tier-A/B translator, correspondence harness.")
-ASSUMPTIONS = ["compiled models: body ids < 2^15, geoms stored body by body, excludes stored as (min<<16)+max"]
+LEVEL_TEXT = ("Theorems, for every ngeom and all arrays: `upper_tri_index` (regenerated from math.py) is a bijection onto [0, n(n-1)/2) in triu order; put_model's pair-table block — a hand "
+              "transcription of its NumPy code (Model/PairFilter.lean), tied to the real put_model by running both on random models on every run — accepts a model iff no explicit pair lists a geom "
+              "twice (such a pair has no table slot: NotImplementedError), and for EVERY accepted model the table has at idx(g1,g2) the id of the last explicit pair listing {g1,g2}, else -1 iff the "
+              "geoms pass contype/conaffinity, lie on different weld bodies, are not parent and child (unless filterparent is off) and are not excluded, else -2; this equals the property's rule for "
+              "compiled models; filtered entries are never written by write_contact / never enter the NXN list / are skipped by the SAP gate; explicit pairs use the pair's "
+              "margin/gap/condim/friction/solref/solimp. The reported contact pairs are compared with mujoco.mj_collision; models with a self pair must be rejected by put_model.")
+TECHNIQUE = ("Lean 4 theorems over a hand-written model of put_model's pair table (Model/PairFilter.lean) tied to the real put_model by a line-protocol correspondence on every run (tables of accepted models, and "
+             "NotImplementedError <-> rejection for self pairs), plus theorems over kernels regenerated from source; oracle mujoco.mj_collision")
+LEVEL_NOTE = ("C19_partial: the NumPy block is modelled by hand (correspondence-checked). This check found that put_model wrote an explicit contact pair of a geom with itself into the table slot of an "
+              "unrelated geom pair; repaired in /repo (6cb912c \"fix: put_model wrote an explicit contact pair of a geom with itself into another pair's table slot\": such pairs are rejected), the "
+              "table theorem now holds for every accepted model without a distinctness hypothesis and the old witness is deleted. Still present: duplicated pairs over the same two geoms deviate "
+              "from MuJoCo (C19Witness; known finding C19-duplicate-pair). Trusted: Lean kernel, tier-A/B translator, correspondence harness.")
+ASSUMPTIONS = ["compiled models: body ids < 2^15, geoms stored body by body, excludes stored as (min<<16)+max, pair_geom1/2 are geom ids"]
 
 
 def _line(mjm):
@@ -27,35 +31,76 @@ def _line(mjm):
   return "pairfilter " + " ".join(str(int(t)) for t in toks)
 
 
+SITE = "io.put_model (pair table)"
+SELF_MSG = "pair of a geom with itself"
+
+
+def _with_self_pair(rng, xml):
+  """the generated model plus one explicit pair of a geom with itself, first or last in <contact> (None: no geom)"""
+  ng = xml.count("<geom name=")
+  if ng == 0:
+    return None
+  g = rng.randrange(ng)
+  pair = f'<pair geom1="g{g}" geom2="g{g}"/>'
+  return xml.replace("<contact>", "<contact>" + pair) if rng.random() < 0.5 else xml.replace("</contact>", pair + "</contact>")
+
+
 def _run(ctx, ncases, with_model):
   import mujoco
   import mujoco_warp as mjw
+  from collections import Counter
   from harness.props import _c19_crosscheck as cc
   from harness.corr.kernel_corr import run_driver
   rng = random.Random(ctx.seed * 1000 + 19)
   acc = Acc()
-  lines, tables, metas = [], [], []
+  lines, expected, metas = [], [], []
   for c in range(ncases):
     xml = cc.gen(rng)
+    if c % 4 == 1:
+      # regression input of the repaired defect (every 4th case, besides the self pairs the generator draws itself)
+      xml = _with_self_pair(rng, xml) or xml
     try:
       mjm = mujoco.MjModel.from_xml_string(xml)
     except ValueError:
       continue
-    if mjm.ngeom < 2:
+    pairs = [(int(a), int(b)) for a, b in zip(mjm.pair_geom1, mjm.pair_geom2)]
+    degenerate = any(a == b for a, b in pairs)
+    if mjm.ngeom < 2 and not degenerate:
       continue
-    degenerate = any(int(a) == int(b) for a, b in zip(mjm.pair_geom1, mjm.pair_geom2))
-    dup = len({frozenset((int(a), int(b))) for a, b in zip(mjm.pair_geom1, mjm.pair_geom2)}) < mjm.npair
+    mult = Counter(tuple(sorted(p)) for p in pairs)
+    dup = any(v > 1 for v in mult.values())
     try:
       m = mjw.put_model(mjm)
+    except NotImplementedError as e:
+      if degenerate and SELF_MSG in str(e):
+        # the model side must answer NOTIMPL for exactly these
+        acc.hit("self-pair-rejected")
+        acc.evals += 1
+        acc.distinct.add(("rejected", mjm.ngeom, tuple(pairs)))
+        if with_model:
+          lines.append(_line(mjm))
+          expected.append("NOTIMPL")
+          metas.append(xml)
+      else:
+        acc.hit("put_model:NotImplementedError(other)")
+      continue
     except Exception as e:
       acc.hit("put_model:" + type(e).__name__)
+      continue
+    if degenerate:
+      # the pair table has no slot for (g, g): whatever put_model did with the pair, it was not what the model asked for
+      acc.find(f"put_model accepted an explicit pair of a geom with itself (pairs {pairs}, ngeom {mjm.ngeom})", SITE, "self-pair-accepted", xml=xml)
+      acc.hit("self-pair-accepted")
+    if mjm.ngeom < 2:
       continue
     tab = m.nxn_pairid.numpy()[:, 0].astype(int).tolist() if hasattr(m, "nxn_pairid") else None
     acc.evals += 1
     if with_model and tab is not None:
       lines.append(_line(mjm))
-      tables.append(tab)
+      expected.append(" ".join(str(x) for x in tab))
       metas.append(xml)
+    if degenerate:
+      continue
     # oracle: reported contact pairs vs MuJoCo at qpos0 with all geoms overlapping (pos spread is small)
     mjd = mujoco.MjData(mjm)
     mujoco.mj_kinematics(mjm, mjd)
@@ -67,30 +112,38 @@ def _run(ctx, ncases, with_model):
     got = sorted(tuple(sorted((int(g[0]), int(g[1])))) for g in d.contact.geom.numpy()[:n])
     want = sorted(tuple(sorted((int(mjd.contact.geom1[i]), int(mjd.contact.geom2[i])))) for i in range(mjd.ncon))
     if sorted(set(got)) != sorted(set(want)):
-      trig = "self-pair" if degenerate else ("duplicate-pair" if dup else "pair-set")
-      acc.find(f"set of colliding geom pairs {sorted(set(got))} differs from mj_collision {sorted(set(want))}", "io.put_model (pair table)", trig, xml=xml)
-    elif got != want and dup:
-      acc.find("duplicated explicit pairs give one contact where MuJoCo gives one per pair", "io.put_model (pair table)", "duplicate-pair", xml=xml)
+      acc.find(f"set of colliding geom pairs {sorted(set(got))} differs from mj_collision {sorted(set(want))}", SITE, "pair-set", xml=xml)
+    elif got != want:
+      # same pairs, different multiplicities.  Known deviation, exact signature: MuJoCo reports one contact per explicit pair,
+      # mujoco_warp one per geom pair (the last explicit pair wins) - sphere pairs have at most one contact
+      cg, cw = Counter(got), Counter(want)
+      if all(cw[p] == cg[p] * max(mult.get(p, 1), 1) for p in cw) and dup:
+        acc.find("duplicated explicit pairs give one contact where MuJoCo gives one per pair", SITE, "duplicate-pair", xml=xml)
+      else:
+        acc.find(f"contact multiplicities {dict(cg)} differ from mj_collision {dict(cw)} (not explained by duplicated pairs)", SITE, "pair-multiplicity", xml=xml)
     if want:
       acc.distinct.add(c)
-    acc.hit("self-pair" if degenerate else ("dup" if dup else "plain"))
+    acc.hit("dup" if dup else "plain")
+    if any(a > b for a, b in pairs):
+      acc.hit("reversed-pair")
     acc.sample({"ngeom": int(mjm.ngeom), "npair": int(mjm.npair), "nexclude": int(mjm.nexclude), "pairs": want[:5]})
   disagreements = []
   if with_model and lines:
     out = run_driver(lines)
-    for line, tab, got, xml in zip(lines, tables, out, metas):
-      exp = " ".join(str(x) for x in tab)
+    for line, exp, got, xml in zip(lines, expected, out, metas):
       if got.strip() != exp:
         disagreements.append({"request": line[:300], "model": got[:300], "put_model": exp[:300]})
   return acc, disagreements, len(lines)
 
 
-RULE = ("random body trees (welded bodies, 0-2 geoms per body, random 2-bit contype/conaffinity), 0-3 explicit pairs (incl. reversed, duplicated, degenerate self pairs), 0-3 excludes, filterparent "
-        "on/off, all geoms overlapping; (a) the table of the real put_model vs the Lean transcription (line protocol), (b) the set of colliding pairs vs mujoco.mj_collision; distinct = cases with contacts")
+RULE = ("random body trees (welded bodies, 0-2 geoms per body, random 2-bit contype/conaffinity), 0-3 explicit pairs (incl. reversed, duplicated, and - drawn at random plus forced in every 4th case - "
+        "self pairs), 0-3 excludes, filterparent on/off, all geoms overlapping; (a) the real put_model vs the Lean transcription (line protocol): the table for accepted models, NotImplementedError <-> "
+        "NOTIMPL for models with a self pair, (b) accepted models: the colliding pairs vs mujoco.mj_collision; a self pair that put_model accepts is a finding; distinct = cases with contacts + "
+        "distinct rejected pair lists")
 
 
 def correspondence(ctx):
-  acc, dis, n = _run(ctx, 120 if ctx.thorough else 40, True)
+  acc, dis, n = _run(ctx, 150 if ctx.thorough else 52, True)
   r = result(acc, RULE)
   r["disagreements"] = dis
   r["evaluations"] += n
